@@ -108,13 +108,21 @@ func init() {
 		key := a[1].AsString()
 		switch {
 		case t.IsMapType():
-			if !a[2].Type().Equals(t.ElementType()) {
-				return rUnspec("default of a different type than the map elements")
+			def := a[2]
+			if !def.Type().Equals(t.ElementType()) {
+				// a default that the documented primitive conversions (docs/convert.md chart) turn
+				// into the element type is converted, as the function's own type check does;
+				// anything else is not compared
+				conv, ok := refPrimConvert(def, t.ElementType())
+				if !ok {
+					return rUnspec("default of a different type than the map elements, not a decidable primitive conversion")
+				}
+				def = conv
 			}
 			if v, ok := a[0].AsValueMap()[key]; ok {
 				return rOK(v)
 			}
-			return rOK(a[2])
+			return rOK(def)
 		case t.IsObjectType():
 			if t.HasAttribute(key) {
 				return rOK(a[0].GetAttr(key))
@@ -653,4 +661,52 @@ func init() {
 
 func fmtInt(i int) string {
 	return big.NewInt(int64(i)).String()
+}
+
+// refPrimConvert is the reference for the primitive conversion chart of docs/convert.md on
+// the few known values where the outcome needs no knowledge of the library's number
+// formatting: bool -> string, whole number -> string, "true"/"false" -> bool, plain decimal
+// integer string -> number.  ok=false means "not decided here".
+func refPrimConvert(v cty.Value, to cty.Type) (cty.Value, bool) {
+	if v.IsNull() || !v.IsKnown() {
+		return cty.NilVal, false
+	}
+	switch {
+	case v.Type() == cty.Bool && to == cty.String:
+		if v.True() {
+			return cty.StringVal("true"), true
+		}
+		return cty.StringVal("false"), true
+	case v.Type() == cty.Number && to == cty.String:
+		f := v.AsBigFloat()
+		if f.IsInf() || !f.IsInt() {
+			return cty.NilVal, false
+		}
+		i, _ := f.Int(nil)
+		if i.BitLen() > 60 {
+			return cty.NilVal, false
+		}
+		return cty.StringVal(i.String()), true
+	case v.Type() == cty.String && to == cty.Bool:
+		switch v.AsString() {
+		case "true":
+			return cty.True, true
+		case "false":
+			return cty.False, true
+		}
+	case v.Type() == cty.String && to == cty.Number:
+		s := v.AsString()
+		if len(s) == 0 || len(s) > 15 {
+			return cty.NilVal, false
+		}
+		for i, r := range s {
+			if !(r >= '0' && r <= '9') && !(i == 0 && r == '-' && len(s) > 1) {
+				return cty.NilVal, false
+			}
+		}
+		if n, ok := new(big.Int).SetString(s, 10); ok {
+			return cty.NumberVal(new(big.Float).SetInt(n)), true
+		}
+	}
+	return cty.NilVal, false
 }
